@@ -10,6 +10,10 @@ verus! {
 
 #[derive(Clone, Copy)]
 struct VarInt { v: u64 }
+impl VarInt {
+    fn into_inner(self) -> (r: u64) ensures r == self.v { self.v }
+    fn from_u32(value: u32) -> (r: VarInt) ensures r.v == value as u64 { VarInt { v: value as u64 } }
+}
 #[derive(Clone, Copy)]
 struct QVarInt { v: u64 }
 // driver/utils.rs conversions keep the value for all 2^62 codes (Kani p_varint_conversions_identity
